@@ -497,6 +497,61 @@ func c15r5(rc *core.RC) {
 		}
 		return true
 	})
+	// names with letters outside ASCII that have another case: the key in the other case ("É" for the member "é")
+	// is matched by encoding/json and by the map lookup, and the bitmaps cannot fold it. The refusal is a test, in the
+	// loop over the field names, that compares the characters of the name with 0x80 (directly or in one predicate
+	// function) and returns.
+	nonASCII := false
+	mentions128 := func(info *types.Info, n ast.Node) bool {
+		hit := false
+		var scan func(info *types.Info, n ast.Node, depth int)
+		scan = func(info *types.Info, n ast.Node, depth int) {
+			ast.Inspect(n, func(m ast.Node) bool {
+				switch x := m.(type) {
+				case *ast.BinaryExpr:
+					switch x.Op {
+					case token.GEQ, token.LSS, token.GTR, token.LEQ:
+						for _, side := range []ast.Expr{x.X, x.Y} {
+							if v, ok := core.ConstInt(info, side); ok && (v == 128 || v == 127) {
+								hit = true
+							}
+						}
+					}
+				case *ast.CallExpr:
+					if depth < 1 {
+						if f := core.Callee(info, x); f != nil {
+							if d := p.DeclOf(f); d != nil && d.Body != nil {
+								scan(p.Info(d), d.Body, depth+1)
+							}
+						}
+					}
+				}
+				return true
+			})
+		}
+		scan(info, n, 0)
+		return hit
+	}
+	ast.Inspect(fd.Body, func(n ast.Node) bool {
+		rs, ok := n.(*ast.RangeStmt)
+		if !ok {
+			return true
+		}
+		if f := core.FieldOf(info, rs.X); f == nil || f.Name() != "fieldMap" {
+			return true
+		}
+		for _, st := range rs.Body.List {
+			ifs, ok := st.(*ast.IfStmt)
+			if !ok || len(ifs.Body.List) == 0 {
+				continue
+			}
+			if _, isRet := ifs.Body.List[len(ifs.Body.List)-1].(*ast.ReturnStmt); isRet && mentions128(info, ifs.Cond) {
+				nonASCII = true
+			}
+		}
+		return true
+	})
+	rc.Check(nonASCII, "decoder.structDecoder.tryOptimize/cased-non-ascii-names-refused", fd.Pos(), "the optimisation is refused for a member name with a letter outside ASCII (a test against 0x80 in the loop over the names that returns): the bitmaps fold A-Z only, so the key \"É\" would not select the member \"é\"")
 	rc.Check(lower, "decoder.structDecoder.tryOptimize/keys-lowercased", fd.Pos(), "keys are lower-cased with strings.ToLower before they are put in the bitmap")
 	rc.Check(refuse, "decoder.structDecoder.tryOptimize/non-ascii-refused", fd.Pos(), "the optimisation is refused when strings.ToLower(k) differs from toASCIILower(k) (the decoders fold ASCII only)")
 	// the table itself: fold its filling loop (constant bounds) and compare all 256 entries with ASCII lower-casing
@@ -2030,4 +2085,354 @@ func c15r21(rc *core.RC) {
 	if k < 2 {
 		rc.Unknown("decoder.compileStruct/promotions-aliases", fd.Pos(), "found %d promotion loops (confirmed: 2)", k)
 	}
+}
+
+// ---- C15.R22 the names that hide promoted members do not include the embedding itself ----
+
+// The members of an embedded struct are promoted unless the enclosing struct has a member of the same name. Both
+// compilers decide that with StructTags.ExistsKey over the tags of the enclosing struct. The embedded struct is a
+// field of the enclosing struct too, and its tag carries the name of its type: a list that still holds it hides the
+// promoted member that happens to be called like the type (struct{ E } with E struct{ E int }: the key "E" was lost
+// in decoding and fell to a case-insensitive match with another member). Every list that reaches ExistsKey therefore
+// has to be built with the embedded structs taken out: each append to it stands under a test (directly, or through
+// one predicate function, or behind a `continue` in the same loop) that looks at Anonymous and IsTaggedKey.
+func c15r22(rc *core.RC) {
+	p := rc.P
+	type site struct {
+		fd   *ast.FuncDecl
+		info *types.Info
+		e    ast.Expr
+		pos  token.Pos
+	}
+	mentions := func(info *types.Info, e ast.Node) bool {
+		seen := map[string]bool{}
+		var scan func(info *types.Info, n ast.Node, depth int)
+		scan = func(info *types.Info, n ast.Node, depth int) {
+			ast.Inspect(n, func(m ast.Node) bool {
+				switch x := m.(type) {
+				case *ast.SelectorExpr:
+					if x.Sel.Name == "Anonymous" || x.Sel.Name == "IsTaggedKey" {
+						seen[x.Sel.Name] = true
+					}
+				case *ast.CallExpr:
+					if depth < 1 {
+						if f := core.Callee(info, x); f != nil {
+							if d := p.DeclOf(f); d != nil && d.Body != nil {
+								scan(p.Info(d), d.Body, depth+1)
+							}
+						}
+					}
+				}
+				return true
+			})
+		}
+		scan(info, e, 0)
+		return seen["Anonymous"] && seen["IsTaggedKey"]
+	}
+	// every append to the list v inside fd is guarded
+	appendsGuarded := func(fd *ast.FuncDecl, info *types.Info, v types.Object) (int, token.Pos) {
+		n := 0
+		bad := token.NoPos
+		ast.Inspect(fd.Body, func(m ast.Node) bool {
+			as, ok := m.(*ast.AssignStmt)
+			if !ok || len(as.Lhs) != 1 || len(as.Rhs) != 1 || core.ObjOf(info, as.Lhs[0]) != v {
+				return true
+			}
+			c, ok := core.Unparen(as.Rhs[0]).(*ast.CallExpr)
+			if !ok || !core.IsBuiltin(info, c, "append") {
+				return true
+			}
+			n++
+			guarded := false
+			for _, cn := range condChainNodes(fd, as) {
+				if mentions(info, cn.cond) {
+					guarded = true
+				}
+			}
+			// a `continue` in front of the append, in the same block
+			path := core.PathTo(fd.Body, as)
+			for i := len(path) - 2; i >= 0 && !guarded; i-- {
+				blk, ok := path[i].(*ast.BlockStmt)
+				if !ok {
+					continue
+				}
+				for _, st := range blk.List {
+					if ast.Node(st) == path[i+1] {
+						break
+					}
+					ifs, ok := st.(*ast.IfStmt)
+					if !ok || len(ifs.Body.List) == 0 {
+						continue
+					}
+					if br, ok := ifs.Body.List[len(ifs.Body.List)-1].(*ast.BranchStmt); ok && br.Tok == token.CONTINUE && mentions(info, ifs.Cond) {
+						guarded = true
+					}
+				}
+				if _, isLoop := path[i-1].(*ast.ForStmt); isLoop {
+					break
+				}
+				if _, isLoop := path[i-1].(*ast.RangeStmt); isLoop {
+					break
+				}
+			}
+			if !guarded {
+				bad = as.Pos()
+			}
+			return true
+		})
+		return n, bad
+	}
+	var resolve func(s site, depth int) (bool, string, token.Pos)
+	resolve = func(s site, depth int) (bool, string, token.Pos) {
+		if depth > 3 {
+			return false, "origin of the list not found within three steps", s.pos
+		}
+		id, ok := core.Unparen(s.e).(*ast.Ident)
+		if !ok {
+			return false, "the list is not a variable: " + core.Src(p.Fset, s.e), s.pos
+		}
+		obj := core.ObjOf(s.info, id)
+		fnObj, _ := s.info.Defs[s.fd.Name].(*types.Func)
+		// a parameter: every caller's argument
+		if fnObj != nil {
+			sig := fnObj.Type().(*types.Signature)
+			for i := 0; i < sig.Params().Len(); i++ {
+				if sig.Params().At(i) != obj {
+					continue
+				}
+				ncall := 0
+				for _, pk := range p.LibPkgs() {
+					for _, fd := range p.Funcs(pk.Name) {
+						if fd.Body == nil {
+							continue
+						}
+						var res *struct {
+							msg string
+							pos token.Pos
+						}
+						ast.Inspect(fd.Body, func(m ast.Node) bool {
+							c, ok := m.(*ast.CallExpr)
+							if !ok || core.Callee(pk.TypesInfo, c) != fnObj || i >= len(c.Args) {
+								return true
+							}
+							ncall++
+							if fd == s.fd && core.ObjOf(pk.TypesInfo, c.Args[i]) == obj {
+								return true // handed on in the recursion
+							}
+							if ok, msg, pos := resolve(site{fd, pk.TypesInfo, c.Args[i], c.Pos()}, depth+1); !ok && res == nil {
+								res = &struct {
+									msg string
+									pos token.Pos
+								}{msg, pos}
+							}
+							return true
+						})
+						if res != nil {
+							return false, res.msg, res.pos
+						}
+					}
+				}
+				if ncall == 0 {
+					return false, "no caller of " + p.FuncName(s.fd) + " found", s.pos
+				}
+				return true, "", token.NoPos
+			}
+		}
+		// a local: its one definition
+		// (the definition; the appends that follow are looked at one by one)
+		var def ast.Expr = id
+		ast.Inspect(s.fd.Body, func(m ast.Node) bool {
+			as, ok := m.(*ast.AssignStmt)
+			if !ok || as.Tok != token.DEFINE || len(as.Lhs) != len(as.Rhs) {
+				return true
+			}
+			for i, l := range as.Lhs {
+				if lid, ok := l.(*ast.Ident); ok && s.info.Defs[lid] == obj {
+					def = as.Rhs[i]
+				}
+			}
+			return true
+		})
+		if c, ok := core.Unparen(def).(*ast.CallExpr); ok {
+			if core.IsBuiltin(s.info, c, "make") {
+				n, bad := appendsGuarded(s.fd, s.info, obj)
+				if n == 0 {
+					return false, "nothing is appended to " + id.Name, s.pos
+				}
+				if bad != token.NoPos {
+					return false, "an append to " + id.Name + " is not under a test of Anonymous and IsTaggedKey", bad
+				}
+				return true, "", token.NoPos
+			}
+			if f := core.Callee(s.info, c); f != nil {
+				if d := p.DeclOf(f); d != nil && d.Body != nil {
+					dinfo := p.Info(d)
+					// the list the function returns: the variable of its return statements
+					var rv types.Object
+					ast.Inspect(d.Body, func(m ast.Node) bool {
+						if r, ok := m.(*ast.ReturnStmt); ok && len(r.Results) == 1 {
+							if o := core.ObjOf(dinfo, r.Results[0]); o != nil {
+								rv = o
+							}
+						}
+						return true
+					})
+					if rv == nil {
+						return false, p.FuncName(d) + " does not return a variable", d.Pos()
+					}
+					n, bad := appendsGuarded(d, dinfo, rv)
+					if n == 0 {
+						return false, "nothing is appended to the list " + p.FuncName(d) + " returns", d.Pos()
+					}
+					if bad != token.NoPos {
+						return false, p.FuncName(d) + " appends the tag of every field, the embedded structs included", bad
+					}
+					return true, "", token.NoPos
+				}
+			}
+		}
+		return false, "the list " + id.Name + " has no single definition that builds it", s.pos
+	}
+	n := 0
+	for _, pk := range p.LibPkgs() {
+		for _, fd := range p.Funcs(pk.Name) {
+			if fd.Body == nil {
+				continue
+			}
+			k := 0
+			ast.Inspect(fd.Body, func(m ast.Node) bool {
+				c, ok := m.(*ast.CallExpr)
+				if !ok || core.CalleeName(pk.TypesInfo, c) != "runtime.StructTags.ExistsKey" {
+					return true
+				}
+				sel, ok := core.Unparen(c.Fun).(*ast.SelectorExpr)
+				if !ok {
+					return true
+				}
+				n++
+				k++
+				name := p.FuncName(fd)
+				rc.Touch(name)
+				key := fmt.Sprintf("%s/ExistsKey#%d list-without-embedded-structs", name, k)
+				ok2, msg, pos := resolve(site{fd, pk.TypesInfo, sel.X, c.Pos()}, 0)
+				if ok2 {
+					rc.OK(key, c.Pos(), "the list asked for hiding names is built with the embedded structs taken out")
+				} else {
+					if pos == token.NoPos {
+						pos = c.Pos()
+					}
+					rc.Bad(key, pos, "%s: the tag of an embedded struct carries the name of its type, so a promoted member of that name (struct{ E } with E struct{ E int }) counts as hidden and is lost", msg)
+				}
+				return true
+			})
+		}
+	}
+	if n < 3 {
+		rc.Unknown("module/ExistsKey-calls", token.NoPos, "found %d calls of StructTags.ExistsKey in the library (confirmed: 3)", n)
+	}
+}
+
+// ---- C15.R23 case-insensitive matching is Unicode simple folding ----
+
+// encoding/json matches a key to a member name when the two are equal under Unicode simple case folding: besides the
+// pairs of upper and lower case that includes the long s (U+017F, folds to s), the Kelvin sign (U+212A, folds to k)
+// and the final sigma. The decoder folds in two places: the maps (compileStruct, lookupField) lower-case with
+// strings.ToLower, which leaves the long s and the final sigma alone, and the bitmap scanners fold the bytes A-Z and
+// compare every other byte as it is, so a key written with the Kelvin sign never selects a member with a k.
+// Obligations: every lower-casing that produces or looks up a name goes through unicode.SimpleFold (directly or in one
+// helper) and not strings.ToLower; every bitmap scanner has an exit for key bytes outside ASCII (a test against 0x80)
+// to the folding lookup.
+func c15r23(rc *core.RC) {
+	p := rc.P
+	pk := p.Pkg("decoder")
+	if pk == nil {
+		rc.Unknown("decoder", token.NoPos, "package not found")
+		return
+	}
+	info := pk.TypesInfo
+	nLower, nScan := 0, 0
+	for _, fd := range p.Funcs("decoder") {
+		if fd.Body == nil || strings.HasSuffix(p.FileBase(fd.Pos()), "_test.go") {
+			continue
+		}
+		name := p.FuncName(fd)
+		// (1) the folds of names: in functions that touch the field maps
+		touchesMaps := false
+		ast.Inspect(fd.Body, func(n ast.Node) bool {
+			if sel, ok := n.(*ast.SelectorExpr); ok {
+				if f := core.FieldOf(info, sel); f != nil && (f.Name() == "fieldMap" || f.Name() == "foldFieldMap") {
+					touchesMaps = true
+				}
+			}
+			if id, ok := n.(*ast.Ident); ok && id.Name == "fieldMap" {
+				if v, ok := core.ObjOf(info, id).(*types.Var); ok && strings.HasPrefix(v.Type().String(), "map[string]*") {
+					touchesMaps = true
+				}
+			}
+			return true
+		})
+		_, bitmapCols := rowIndexVars(info, fd)
+		if touchesMaps && len(bitmapCols) == 0 {
+			// (the function that fills the bitmaps refuses names with cased letters outside ASCII first, C15.R5: its
+			// lower-casing of the names that remain is ASCII folding)
+			k := 0
+			ast.Inspect(fd.Body, func(n ast.Node) bool {
+				c, ok := n.(*ast.CallExpr)
+				if !ok {
+					return true
+				}
+				cn := core.CalleeName(info, c)
+				if cn != "strings.ToLower" && cn != "strings.ToUpper" {
+					return true
+				}
+				k++
+				nLower++
+				rc.Touch(name)
+				rc.Bad(fmt.Sprintf("%s/%s#%d name-fold-is-simple-folding", name, cn, k), c.Pos(), "%s(%s) folds a member name or key: it is not the folding encoding/json matches names with (it leaves the long s U+017F and the final sigma as they are, simple folding maps them to s and to sigma): {\"ſ\":1} selects the member \"s\" there and no member here", cn, core.Src(p.Fset, c.Args[0]))
+				return true
+			})
+		}
+		// (2) the bitmap scanners
+		if len(bitmapCols) == 0 || fd.Recv != nil {
+			continue
+		}
+		nScan++
+		rc.Touch(name)
+		exit := false
+		ast.Inspect(fd.Body, func(n ast.Node) bool {
+			ifs, ok := n.(*ast.IfStmt)
+			if !ok {
+				return true
+			}
+			has128 := false
+			ast.Inspect(ifs.Cond, func(m ast.Node) bool {
+				if be, ok := m.(*ast.BinaryExpr); ok {
+					for _, side := range []ast.Expr{be.X, be.Y} {
+						if v, ok := core.ConstInt(info, side); ok && (v == 128 || v == 127) {
+							has128 = true
+						}
+					}
+				}
+				return true
+			})
+			if !has128 {
+				return true
+			}
+			ast.Inspect(ifs.Body, func(m ast.Node) bool {
+				if c, ok := m.(*ast.CallExpr); ok {
+					switch core.CalleeName(info, c) {
+					case "decoder.decodeKey", "decoder.decodeKeyStream", "decoder.structDecoder.lookupField":
+						exit = true
+					}
+				}
+				return true
+			})
+			return true
+		})
+		rc.Check(exit, name+"/non-ascii-key-bytes-leave-the-bitmap", fd.Pos(), "the scanner compares every key byte outside ASCII with the bytes of the member names as it is (there is no exit, on a byte >= 0x80, to the lookup that folds): the Kelvin sign U+212A, which simple folding maps to k, never selects a member with a k: {\"K\":1} sets the member \"k\" in encoding/json and nothing here")
+	}
+	if nScan < 4 {
+		rc.Unknown("decoder/bitmap-scanners", token.NoPos, "found %d bitmap scanners (confirmed: 4)", nScan)
+	}
+	_ = nLower
 }
